@@ -1304,6 +1304,10 @@ func (w *c02World) exec(op *c02Op) string {
 		return w.execReqObj(op)
 	case "dpopval":
 		return w.execDPoPVal(op)
+	case "tokskew":
+		return w.execTokSkew(op)
+	case "onceonly":
+		return w.execOnceOnly(op)
 	}
 	return "bad-op:" + op.Op
 }
@@ -2965,6 +2969,7 @@ func c02Targeted(t *testing.T, out *c02Out, seed int64) {
 	}
 	// (k) the resource-server side of the key binding (ValidateDPoPProof), see zz_verif_c02dpop_test.go
 	c02TargetedDPoP(t, out, rng)
+	c02TargetedExpiry(t, out, rng)
 	// (b)
 	g := &c02Gen{rng: rng, subjects: []string{"alpha", "alpha2", "beta"}}
 	cfg := g.newConfig(false)
